@@ -32,6 +32,7 @@ import (
 
 	. "verifharness/h"
 
+	"github.com/smartcontractkit/chainlink-automation/pkg/v3/runner"
 	"github.com/smartcontractkit/chainlink-automation/pkg/v3/service"
 )
 
@@ -847,6 +848,23 @@ func TestC18(t *testing.T) {
 			dist["cache-collector: ok"]++
 		}
 	}
+	// part E: every flow shares one runner.  A panic in the check pipeline is contained each time it happens: after more
+	// contained panics than the runner has workers, a healthy check (of any flow) is still executed, and Close leaves
+	// nothing behind.
+	for _, workers := range []int{1, 3} {
+		for _, panics := range []int{1, workers, workers + 2, 3 * workers} {
+			name := fmt.Sprintf("runner-panics/%d-workers-%d-panics", workers, panics)
+			verdict, left := runRunnerPanics(t, workers, panics)
+			evals++
+			keys = append(keys, name)
+			if verdict != "ok" || len(left) > 0 {
+				dist["runner-panics: violation"]++
+				violations = append(violations, map[string]any{"name": name, "verdict": "violation: " + verdict, "left": left})
+			} else {
+				dist["runner-panics: ok"]++
+			}
+		}
+	}
 	if violations == nil {
 		violations = []any{}
 	}
@@ -902,4 +920,78 @@ func runCacheStop(t *testing.T, c cacheStopCase) (left []string) {
 		left = repoGoroutines()
 	})
 	return left
+}
+
+// ---------------------------------------------------------------- part E: contained panics in the shared runner
+
+type panicky struct{ left atomic.Int32 }
+
+func (p *panicky) CheckUpkeeps(_ context.Context, ps ...common.UpkeepPayload) ([]common.CheckResult, error) {
+	if p.left.Add(-1) >= 0 {
+		panic("injected pipeline panic")
+	}
+	out := make([]common.CheckResult, len(ps))
+	for i, pl := range ps {
+		out[i] = common.CheckResult{Eligible: true, UpkeepID: pl.UpkeepID, Trigger: pl.Trigger, WorkID: pl.WorkID, GasAllocated: 1}
+	}
+	return out, nil
+}
+
+func runRunnerPanics(t *testing.T, workers, panics int) (verdict string, left []string) {
+	verdict = "ok"
+	bubble(t, func(t *testing.T) {
+		pipe := &panicky{}
+		pipe.left.Store(int32(panics))
+		rn, err := runner.NewRunner(log.New(io.Discard, "", 0), pipe, runner.RunnerConfig{Workers: workers, WorkerQueueLength: 100, CacheExpire: time.Minute, CacheClean: 30 * time.Second})
+		if err != nil {
+			t.Fatal(err)
+		}
+		go func() { _ = rn.Start(context.Background()) }()
+		synctest.Wait()
+		payload := func(i int) common.UpkeepPayload {
+			id := UpkeepID(1, 9000+i)
+			trg := common.NewLogTrigger(100, Hash32("blk", 100), &common.LogTriggerExtension{TxHash: Hash32("tx", i), Index: 1, BlockHash: Hash32("lb", i), BlockNumber: 99})
+			return common.UpkeepPayload{UpkeepID: id, Trigger: trg, WorkID: simutil.UpkeepWorkID(id, trg)}
+		}
+		call := func(i int) (int, error, bool) {
+			type ans struct {
+				n   int
+				err error
+			}
+			ch := make(chan ans, 1)
+			go func() {
+				rs, err := rn.CheckUpkeeps(context.Background(), payload(i))
+				ch <- ans{len(rs), err}
+			}()
+			select {
+			case a := <-ch:
+				return a.n, a.err, true
+			case <-time.After(2 * time.Minute):
+				return 0, nil, false
+			}
+		}
+		for i := 0; i < panics; i++ {
+			if _, _, ok := call(i); !ok {
+				verdict = fmt.Sprintf("the check call during contained panic %d of %d never returned", i+1, panics)
+				break
+			}
+		}
+		if verdict == "ok" {
+			n, err, ok := call(1000)
+			switch {
+			case !ok:
+				verdict = fmt.Sprintf("a healthy check after %d contained panics (%d workers) is never executed", panics, workers)
+			case err != nil || n != 1:
+				verdict = fmt.Sprintf("a healthy check after %d contained panics answered %d results, error %v", panics, n, err)
+			}
+		}
+		_ = rn.Close()
+		synctest.Wait()
+		time.Sleep(time.Minute)
+		synctest.Wait()
+		if verdict == "ok" {
+			left = repoGoroutines()
+		}
+	})
+	return verdict, left
 }
